@@ -286,16 +286,12 @@ func (b *BoundedBacktracker) SearchAtWithState(haystack []byte, at int, state *B
 		if end >= 0 {
 			return startPos, end, true
 		}
-		// O(1) reset: increment generation instead of O(n) array clear
-		// This is the key optimization that makes Search fast on large inputs
-		state.Generation++
-		// Handle overflow by resetting the array (every 256 searches)
-		if state.Generation == 0 {
-			for i := range state.Visited {
-				state.Visited[i] = 0
-			}
-			state.Generation = 1
-		}
+		// The visited marks are deliberately kept for the next start position
+		// (as in IsMatchWithState, Go's regexp backtracker and Rust's bounded
+		// backtracker): every (state, pos) pair marked so far was explored
+		// completely without reaching a match, and that outcome does not depend
+		// on where the attempt started. Invalidating the marks per start position
+		// made a failing search re-explore the whole tail from every start: O(n^2).
 	}
 	return -1, -1, false
 }
